@@ -76,9 +76,18 @@ def client_bytes(obs):
     return b"".join(bytes.fromhex(x) for x in obs["client_out"] if not x.startswith("ERR"))
 
 
+def h2_versioned(f):
+    s = f["req"] or f.get("req_head")
+    return s is not None and unhx(s["version"]) in (b"HTTP/2.0", b"HTTP/3.0")
+
+
 def oracle_c01(case, obs):
     fails = []
     flows = obs["flows"]
+    if any(h2_versioned(f) for f in flows):
+        # a request line announcing HTTP/2.0 / HTTP/3.0 on an HTTP/1 connection makes the flow an "h2 flow" that is
+        # converted (copied, Host inserted, authority dropped) for sending: HTTP/2-3 inputs are C06's subject
+        return []
     # ---- requests ----------------------------------------------------------------------------------------------
     # C01: "the bytes mitmproxy forwards upstream are framed so that an independent RFC 9112 parser reads exactly the
     # requests mitmproxy recorded as flows: same number and order, same method, target, header fields and body,
@@ -96,7 +105,11 @@ def oracle_c01(case, obs):
             if d: fails.append(f"req: forwarded request #{i} differs from the recorded flow in {d}")
     if partial:
         if len(partial) == 1 and len(streaming_open) == 1:
-            d = req_eq(partial[0][1], streaming_open[0]["req_head"], body=False)
+            head = dict(streaming_open[0]["req_head"])
+            # documented rewrite after the requestheaders hook: "Expect: 100-continue" is answered by the proxy and removed
+            if any(unhx(k).lower() == b"expect" and unhx(v).lower() == b"100-continue" for k, v in head["fields"]):
+                head["fields"] = [[k, v] for k, v in head["fields"] if unhx(k).lower() != b"expect"]
+            d = req_eq(partial[0][1], head, body=False)
             if d: fails.append(f"req: partially streamed request differs from the recorded flow in {d}")
         else:
             fails.append(f"req: incomplete request on the wire to {partial[0][0]} without a streaming flow")
@@ -119,6 +132,9 @@ def oracle_c01(case, obs):
     p = R.parse_responses(cb, meths, eof=eof)
     finals = [m for m in p.messages if not m["interim"]]
     interim = [m for m in p.messages if m["interim"]]
+    head_only = None
+    if p.stop is not None and p.stop[0] == "incomplete" and p.partial is not None:
+        head_only = p.partial; finals.append(head_only)     # head on the wire, body still open
     if p.stop is not None and p.stop[0] not in ("tunnel",):
         if not (p.stop[0] == "incomplete" and p.partial is not None and any(f.get("resp_head") and f["resp"] is None for f in flows)):
             fails.append(f"resp: bytes relayed to the client are not a sequence of RFC 9112 responses: {p.stop}")
@@ -139,10 +155,12 @@ def oracle_c01(case, obs):
                      f"{len(expected)} flow(s) recorded a relayed response")
     else:
         for i, (m, (kind, f)) in enumerate(zip(finals, expected)):
+            if m is head_only and kind != "head":
+                fails.append(f"resp: response #{i} is incomplete on the wire although the flow recorded it as relayed")
             if kind == "head":
                 d = resp_eq(m, f["resp_head"], body=False)
                 if d: fails.append(f"resp: streamed response head #{i} differs from the recorded flow in {d}")
-            if kind == "flow":
+            if kind == "flow" and m is not head_only:
                 d = resp_eq(m, f["resp"])
                 if d: fails.append(f"resp: relayed response #{i} differs from the recorded flow in {d}")
     for m in interim:
